@@ -35,6 +35,8 @@ pub fn path(p: &syn::Path) -> Sx {
             st(toks(p)),
             lo,
             hi,
+            sp2(p.segments.first().map(|s| s.ident.span()).unwrap_or_else(|| p.span())).0,
+            sp2(p.segments.first().map(|s| s.ident.span()).unwrap_or_else(|| p.span())).1,
         ],
     )
 }
